@@ -11,10 +11,17 @@ BUDGET_S = {'quick': 80, 'thorough': 1200}
 RULE = ('dense datasets: small-integer templates (amplitude ties, ties at the maximum, flat channels), whitening '
         'absent / diagonal dyadic / supplied inverse, geometries with more and fewer channels than the '
         'neighbourhood size (n_closest 1..5 and 12), 1..2 shanks, thresholds {0, 1/4, 1/2, 1}, explicit channel '
-        'lists, whitened and unwhitened requests; sparse datasets: column tables with -1 and all-zero columns. '
+        'lists (the empty one included), whitened and unwhitened requests; a third of the dense datasets on a '
+        'probe-like layout of 16..24 sites (20..100 um pitch) whose coordinates are stored in every integer dtype '
+        '(int8 .. uint64) and float32/64 - squared distances beyond the range of the 8- and 16-bit types; sparse '
+        'datasets: column tables (int16 .. int64, uint16 .. uint64: unused = the dtype\'s -1, all-ones when unsigned) '
+        'with unused and all-zero columns, arbitrary values under unused columns, and stored columns whose size '
+        'relative to the template maximum is spread over 2^-27 .. 1 on both sides of the 1e-6 "signal-free" line. '
         'One case = one loaded TemplateModel, every template queried in several variants; the Lean executable '
         'decides the C05 predicate on each real record. non-trivial = record with >= 2 listed channels')
 ASSUMPTIONS = ['float32 cast and matrix product are exact on the generated values (small integers x dyadic diagonal)',
+               'the float32 comparison `max|column| > max * 1e-6` of sparse storage agrees with the exact one on the '
+               'generated values: no column lies within 2^-20 (relative) of the line',
                'np.argsort tie order is not modelled: the predicate accepts any order among equal keys; the exact '
                'comparison with the model is made on tie-free inputs only']
 
@@ -65,9 +72,11 @@ def impl(case):
 def _q(case, v, wmi, impl_rec=None):
     spec = case['spec']
     Tw = DC.fracs(spec['templates'][v['t']])
-    q = dict(p=PID, wmi=wmi, Tw=Tw, unwhiten=v['unwhiten'])
+    # `template_scaling` of params.py: part of the Lean model of _unwhiten
+    q = dict(p=PID, wmi=wmi, Tw=Tw, unwhiten=v['unwhiten'], scaling=DC.frac(float(spec.get('template_scaling') or 1.)))
     if spec.get('template_ind') is not None:
-        q.update(op='sparse', cols=spec['template_ind'][v['t']])
+        dt = np.dtype((spec.get('dtypes') or {}).get('template_ind', 'int32'))
+        q.update(op='sparse', cols=spec['template_ind'][v['t']], cols_dtype=dict(unsigned=dt.kind == 'u', bits=8 * dt.itemsize))
     else:
         thr = v.get('thr')
         if thr is None:
@@ -81,10 +90,8 @@ def _q(case, v, wmi, impl_rec=None):
 
 
 def model_query(case, impl_res):
-    wmi = impl_res['ok']['wmi'] if 'ok' in impl_res else DC.wmi_of(case['spec'])
-    # params.py may carry `template_scaling`: unwhitened templates are (template . wmi) x scaling
-    sc = float(case['spec'].get('template_scaling') or 1.)
-    wmi = DC.fracs((np.asarray(wmi, dtype=np.float64) * sc).tolist())
+    # the inverse whitening matrix shown by the model (the judge checks it against the stored matrices)
+    wmi = DC.fracs(impl_res['ok']['wmi'] if 'ok' in impl_res else DC.wmi_of(case['spec']))
     qs = []
     for i, v in enumerate(case['variants']):
         rec = impl_res['ok']['recs'][i] if 'ok' in impl_res else None
@@ -108,13 +115,17 @@ def judge(case, impl_res, ans):
     if bad:
         return 'SPEC: ' + bad
     for i, (v, r, m) in enumerate(zip(case['variants'], ok['recs'], ans['ok']['res'])):
+        if _outside(case, v):
+            continue
         if m['model_spec'] is not True:
             return 'MACHINERY: model record rejected by its own spec (contradicts the theorem), variant %d' % i
         if 'raised' in r:
             return 'SPEC: get_template(%d, %s) raised %s (%s) at %s' % (v['t'], {k: v[k] for k in v if k != 't'}, r['raised'], r['msg'], r['where'])
         if m['impl_spec'] is not True:
-            return ('SPEC: record of template %d (%s) violates the C05 predicate: channels %s amplitude %s best %d' % (
+            return ('SPEC: record of template %d (%s) violates the C05 predicate%s: channels %s amplitude %s best %d' % (
                 v['t'], 'explicit list' if v.get('explicit') is not None else ('sparse' if case['spec'].get('template_ind') is not None else 'dense'),
+                ' (stored channels in use that carry signal: %s)' % m['kept'] if 'kept' in m else
+                ' (the number of listed channels among those tied at the edge of the neighbourhood does not fit a set of n_closest nearest channels)' if m.get('impl_count') is False and m.get('impl_base') is True else '',
                 r['channels'], r['amplitude'], r['best']))
         if v.get('accessors'):
             if r['acc_channels'] != r['default']['channels'] or r['acc_waveforms'] != r['default']['template']:
@@ -125,6 +136,19 @@ def judge(case, impl_res, ans):
             if got != mm:
                 return 'CORR: tie-free record differs from the model (variant %d)' % i
     return None
+
+
+def _outside(case, v):
+    """Inputs outside the quantifier that a hand-made / shrunk case may hold (never generated): a sparse row that stores
+    the same channel in two columns in use - "the template on that channel" is then not defined (hypothesis `hdist` of
+    sparse_record_ok).  No verdict on such a variant."""
+    spec = case['spec']
+    if spec.get('template_ind') is None:
+        return False
+    dt = np.dtype((spec.get('dtypes') or {}).get('template_ind', 'int32'))
+    m1 = int(np.iinfo(dt).max) if dt.kind == 'u' else -1
+    used = [c for c in spec['template_ind'][v['t']] if c != m1]
+    return len(set(used)) != len(used)
 
 
 def model_query_multi_supported():
@@ -142,6 +166,14 @@ def tally(rep, case, impl_res, ans):
         rep.count('second_model_on_the_directory')
     spec = case['spec']
     rep.count('storage:%s' % ('sparse' if spec.get('template_ind') is not None else 'dense'))
+    if spec.get('template_ind') is not None:
+        rep.count('column_table_dtype:' + (spec.get('dtypes') or {}).get('template_ind', 'int32'))
+        for k, n in (spec.get('_levels') or {}).items():
+            rep.count('stored_column_relative_size:' + k, n)
+    if spec.get('_probe_layout'):
+        rep.count('probe_layout:%s' % spec['_probe_layout'])
+    if spec.get('_wraps'):
+        rep.count('squared_distances_beyond_the_range_of_the_positions_dtype')
     rep.count('file_names:%s%s' % ('ALF' if spec.get('alf') else 'KiloSort', ', shanks' if spec.get('channel_shanks') is not None else ''))
     rep.count('n_closest:%d' % case['n_closest'])
     if spec.get('_scaled_template'):
@@ -150,7 +182,7 @@ def tally(rep, case, impl_res, ans):
     rep.count('records', len(case['variants']))
     for v in case['variants']:
         if v.get('explicit') is not None:
-            rep.count('explicit_list:' + v.get('ekind', 'int64'))
+            rep.count('explicit_list:' + v.get('ekind', 'int64') + (' (empty)' if not v['explicit'] else ''))
         rep.count('unwhiten:%s' % v['unwhiten'])
     if 'ok' in ans:
         for m in ans['ok']['res']:
@@ -159,9 +191,18 @@ def tally(rep, case, impl_res, ans):
 
 
 def classify(case, impl_res, ans, why):
+    import re
     spec = case['spec']
-    return dict(kind=why.split(':')[0], storage='sparse' if spec.get('template_ind') is not None else 'dense',
-                explicit=('explicit list' in why), raised=impl_res.get('raised'))
+    dts = spec.get('dtypes') or {}
+    sparse = spec.get('template_ind') is not None
+    m = re.search(r'raised (\w+)', why)
+    pdt = dts.get('channel_positions', 'float64')
+    return dict(kind=why.split(':')[0], storage='sparse' if sparse else 'dense',
+                explicit=('explicit list' in why), raised=impl_res.get('raised'),
+                # narrower: the exception of the single request, integer-typed coordinates, the dtype of the column table
+                request_raised=m.group(1) if m and 'raised' not in impl_res else None,
+                integer_positions=pdt if (not sparse and np.dtype(pdt).kind in 'iu') else None,
+                column_table=dts.get('template_ind', 'int32') if sparse else None)
 
 
 def shrink(case):
@@ -170,46 +211,105 @@ def shrink(case):
             yield dict(case, variants=[case['variants'][i]])
 
 
+SIGNED_TABLES = ['int32', 'int32', 'int64', 'int16']
+UNSIGNED_TABLES = ['uint32', 'uint32', 'uint16', 'uint64']
+
+
+def _level(rng):
+    """size of a stored column relative to the template maximum: an exactly representable number 2^-e * m/1024
+    (1024 <= m < 2048) between 2^-27 and 1, at least 2^-20 (relative) away from 1e-6 -> (value, label)"""
+    r = rng.random()
+    if r < .35:        # next to the line: 1e-6 = 2^-20 * 1.048576
+        e, m = 20, rng.pick([1024, 1056, 1072, 1073, 1074, 1075, 1088, 1152, 1536, 2047])
+    elif r < .5:
+        e, m = rng.pick([19, 21]), rng.randrange(1024, 2048)
+    else:
+        e, m = rng.randrange(0, 28), rng.pick([1024, 1024, rng.randrange(1024, 2048)])
+    x = 2.0 ** -e * m / 1024
+    assert abs(x - 1e-6) > 1e-6 * 2.0 ** -20
+    lab = ('below 1e-8' if x < 1e-8 else '1e-8..1e-7' if x < 1e-7 else '1e-7..9e-7' if x < 9e-7 else '9e-7..1e-6' if x < 1e-6 else
+           '1e-6..1.1e-6' if x < 1.1e-6 else '1.1e-6..1e-5' if x < 1e-5 else '1e-5..1e-3' if x < 1e-3 else '1e-3..1')
+    return x, lab
+
+
+def _sparse_case(rng, nc, q):
+    nt = rng.randrange(2, 5); nsw = rng.randrange(2, 6); nloc = rng.randrange(2, nc + 1)
+    spread = rng.random() < .6
+    spec = DC.dense_spec(rng, nt=nt, nc=nc, nsw=nsw, feats=False, curated=False, shanks=False,
+                         whiten=rng.pick(['none', 'diag', 'diag+inv', 'diag-invonly']) if spread else None)
+    # the dtype of the column table decides what "unused (-1)" looks like in the file
+    tdt = rng.pick(SIGNED_TABLES if rng.random() < .5 else UNSIGNED_TABLES)
+    m1 = int(np.iinfo(tdt).max) if np.dtype(tdt).kind == 'u' else -1
+    ind, tm, levels = [], [], {}
+    for t in range(nt):
+        row = rng.sample(range(nc), nloc)
+        data = [[float(rng.randrange(-8, 9)) for _ in range(nloc)] for _ in range(nsw)]
+        for j in range(nloc):
+            r = rng.random()
+            if r < .2:
+                row[j] = m1           # unused column: whatever it holds (left as drawn, sometimes huge) is ignored
+                if rng.random() < .4:
+                    for s_ in range(nsw):
+                        data[s_][j] *= 2.0 ** rng.pick([6, 12, 20])
+            elif r < .35:
+                for s_ in range(nsw):
+                    data[s_][j] = 0.
+        if all(all(x == 0 for x in col) for col in zip(*data)):
+            data[0][0] = 4.
+        # at least one stored channel that is used and carries signal
+        if not any(row[j] != m1 and any(data[s_][j] != 0 for s_ in range(nsw)) for j in range(nloc)):
+            used = [c for c in row if c != m1]
+            row[0] = next(c for c in range(nc) if c not in used)
+            data[0][0] = 4.
+        if spread:
+            # one used column holds the template maximum 8 = 2^3; the other used non-zero columns are scaled to a
+            # chosen size relative to it: entries 0 / +-(8 x level), so that every float32 operation stays exact
+            usedj = [j for j in range(nloc) if row[j] != m1 and any(data[s_][j] != 0 for s_ in range(nsw))]
+            top = rng.pick(usedj)
+            data[rng.randrange(nsw)][top] = rng.pick([8., -8.])
+            for j in usedj:
+                if j == top or rng.random() < .25:
+                    continue
+                x, lab = _level(rng)
+                levels[lab] = levels.get(lab, 0) + 1
+                for s_ in range(nsw):
+                    data[s_][j] = 0. if data[s_][j] == 0 else (8. * x if data[s_][j] > 0 else -8. * x)
+        ind.append(row); tm.append(data)
+    if rng.random() < .35:
+        # templates of very different overall size (one unit a few million times larger than another):
+        # "signal-free" is relative to the template's own peak, never to the other templates
+        big = rng.randrange(nt)
+        k = rng.pick([10, 22])
+        tm[big] = [[x * 2.0 ** k for x in r] for r in tm[big]]
+        spec['_scaled_template'] = k
+    spec['templates'] = tm
+    spec['template_ind'] = ind
+    spec['dtypes'] = dict(spec.get('dtypes') or {}, template_ind=tdt)
+    spec['_levels'] = levels
+    variants = [dict(t=t, unwhiten=u) for t in range(nt) for u in (True, False)]
+    return dict(p=PID, spec=spec, n_closest=12, thr_default=0, variants=variants)
+
+
+def _wraps(positions, dtype):
+    dt = np.dtype(dtype)
+    if dt.kind not in 'iu':
+        return False
+    p = np.asarray(positions, dtype=np.float64)
+    d2 = ((p[:, None, :] - p[None, :, :]) ** 2).sum(axis=2)
+    return bool(d2.max() > np.iinfo(dt).max)
+
+
 def gen(tier, rng):
     q = tier == 'quick'
     for i in range(220 if q else 4000):
         nc = rng.randrange(2, 9)
         if i % 4 == 3:
-            # sparse storage
-            nt = rng.randrange(2, 5); nsw = rng.randrange(2, 6); nloc = rng.randrange(2, nc + 1)
-            spec = DC.dense_spec(rng, nt=nt, nc=nc, nsw=nsw, feats=False, curated=False, shanks=False)
-            ind, tm = [], []
-            for t in range(nt):
-                row = rng.sample(range(nc), nloc)
-                data = [[float(rng.randrange(-8, 9)) for _ in range(nloc)] for _ in range(nsw)]
-                for j in range(nloc):
-                    r = rng.random()
-                    if r < .2:
-                        row[j] = -1
-                    elif r < .35:
-                        for s in range(nsw):
-                            data[s][j] = 0.
-                if all(all(x == 0 for x in col) for col in zip(*data)):
-                    data[0][0] = 4.
-                # at least one stored channel that is used and carries signal
-                if not any(row[j] != -1 and any(data[s][j] != 0 for s in range(nsw)) for j in range(nloc)):
-                    used = [c for c in row if c != -1]
-                    row[0] = next(c for c in range(nc) if c not in used)
-                    data[0][0] = 4.
-                ind.append(row); tm.append(data)
-            if rng.random() < .35:
-                # templates of very different overall size (one unit a few million times larger than another):
-                # "signal-free" is relative to the template's own peak, never to the other templates
-                big = rng.randrange(nt)
-                k = rng.pick([10, 22])
-                tm[big] = [[x * 2.0 ** k for x in r] for r in tm[big]]
-                spec['_scaled_template'] = k
-            spec['templates'] = tm
-            spec['template_ind'] = ind
-            variants = [dict(t=t, unwhiten=u) for t in range(nt) for u in (True, False)]
-            yield dict(p=PID, spec=spec, n_closest=12, thr_default=0, variants=variants)
+            yield _sparse_case(rng, nc, q)      # sparse storage
             continue
-        spec = DC.dense_spec(rng, nc=nc, feats=False, shanks=(i % 3 == 0))
+        probe = i % 3 == 1
+        if probe:
+            nc = rng.pick([16, 16, 20, 24])
+        spec = DC.dense_spec(rng, nc=nc, feats=False, shanks=None if probe else (i % 3 == 0), nt=rng.randrange(2, 4) if probe else None)
         if i % 4 == 2:
             spec['alf'] = True            # the same dataset under its ALF file names (channels.shanks.npy, ...)
         nt = len(spec['templates'])
@@ -221,10 +321,18 @@ def gen(tier, rng):
         for t in range(nt):
             variants.append(dict(t=t, unwhiten=True, accessors=True))
             variants.append(dict(t=t, unwhiten=rng.random() < .5, thr=rng.pick([0, .25, .5, 1.])))
-            variants.append(dict(t=t, unwhiten=rng.random() < .5, explicit=rng.sample(range(nc), rng.randrange(1, nc + 1)),
+            variants.append(dict(t=t, unwhiten=rng.random() < .5,
+                                 explicit=rng.sample(range(nc), 0 if rng.random() < .12 else rng.randrange(1, min(nc, 8) + 1)),
                                  ekind=rng.pick(['int64', 'list', 'uint32', 'int32', 'tuple'])))
         # probe coordinates stored as floats or as (un)signed integers: the geometry is the same
-        pdt = rng.pick(['float64', 'float64', 'float32', 'int32', 'int64', 'uint32', 'uint64', 'uint16'])
+        if probe:
+            pdt = rng.pick(list(DC.INT_POSITION_DTYPES) + ['int16', 'uint16', 'float32', 'float64'])
+            spec['channel_positions'] = DC.probe_positions(rng, nc, pdt)
+            spec['_probe_layout'] = '%d sites' % nc
+            if _wraps(spec['channel_positions'], pdt):
+                spec['_wraps'] = True
+        else:
+            pdt = rng.pick(['float64', 'float64', 'float32', 'int32', 'int64', 'uint32', 'uint64', 'uint16', 'int16'])
         spec.setdefault('dtypes', {})
         spec['dtypes'] = dict(spec['dtypes'], channel_positions=pdt)
         yield dict(p=PID, spec=spec, n_closest=rng.pick([1, 2, 3, 5, 12]), thr_default=rng.pick([0, 0, .25, .5]),
